@@ -167,10 +167,41 @@ func C12(c *Ctx) {
 		st := fieldStoresIn(fn, true, "lsm.memTable", "maxVersion")
 		c.Decide(len(st) >= 1, r3, key(fn, "raises:memTable.maxVersion"), fn.Pos(), 1, "replay raises the memtable's max version", "openMemTable no longer tracks the max version of replayed entries")
 	}
-	if fn := c.Fn("lsm", "tableBuilder.add"); fn != nil {
-		st := fieldStoresIn(fn, false, "lsm.tableBuilder", "maxVersion")
-		c.Decide(len(st) >= 1, r3, key(fn, "raises:tableBuilder.maxVersion"), fn.Pos(), 1, "builder tracks max version", "tableBuilder.add no longer tracks the max version")
+	// every builder entry point that adds an entry (fresh or stale) raises tableBuilder.maxVersion,
+	// directly or through the shared add helper
+	for _, ep := range []string{"tableBuilder.AddKey", "tableBuilder.AddKeyWithLen", "tableBuilder.AddStaleKey", "tableBuilder.AddStaleEntryWithLen"} {
+		fn := c.Fn("lsm", ep)
+		if fn == nil {
+			continue
+		}
+		c.Decide(storesFieldDeep(c, fn, "lsm.tableBuilder", "maxVersion", 3), r3, key(fn, "raises:tableBuilder.maxVersion"), fn.Pos(), 1, "builder tracks max version on this entry point", ep+" adds an entry without raising tableBuilder.maxVersion: the table's recorded MaxVersion (oracle seed after restart) can be lower than a version it holds")
 	}
+}
+
+// storesFieldDeep: fn or a module function it statically calls (to the given depth)
+// stores to owner.field.
+func storesFieldDeep(c *Ctx, fn *ssa.Function, owner, field string, depth int) bool {
+	if len(fieldStoresIn(fn, true, owner, field)) > 0 {
+		return true
+	}
+	if depth <= 0 {
+		return false
+	}
+	found := false
+	AllInstrs(fn, true, func(in ssa.Instruction) {
+		if found {
+			return
+		}
+		if ci, ok := in.(ssa.CallInstruction); ok {
+			if f := StaticFn(ci.Common()); f != nil && f.Blocks != nil && InModule(f) && f != fn {
+				c.Touch(f)
+				if storesFieldDeep(c, f, owner, field, depth-1) {
+					found = true
+				}
+			}
+		}
+	})
+	return found
 }
 
 // fieldReads returns "owner.field" for every field address/field value taken in fn.
